@@ -8,36 +8,6 @@ import NumbersModel.Lemmas.Cache
 namespace NumbersModel.FormulaAccept
 open NumbersModel NumbersModel.Tokenizer NumbersModel.Formula
 
-/-- an operand text the tokenizer keeps as one plain token: non-empty, plain characters only
-    (no quotes, brackets, separators, operator glyphs, `#`), and not of the `1E` shape. -/
-def atomOK (t : Text) : Bool := !t.isEmpty && t.all plain && !snMatch t
-
-def nameOK (t : Text) : Bool := t.all plain
-
-mutual
-/-- expressions whose rendering stays inside the grammar `G` (everything except array literals,
-    and with operand / function-name texts that are plain: references that need quoting —
-    names with operator characters or apostrophes — are outside). -/
-def TokSafe : Expr → Bool
-  | .num n => atomOK (numText n)
-  | .str _ => true
-  | .bool _ _ => true
-  | .date _ => true
-  | .ref t => atomOK t
-  | .empty => false
-  | .bin _ l r => TokSafe l && TokSafe r
-  | .neg e => TokSafe e
-  | .pct e => TokSafe e
-  | .paren es => ArgsSafe es
-  | .call f args => nameOK (funcName f) && ArgsSafe args
-  | .arr _ _ _ => false
-/-- arguments may also be empty (`F(,1)`). -/
-def ArgsSafe : List Expr → Bool
-  | [] => true
-  | .empty :: es => ArgsSafe es
-  | e :: es => TokSafe e && ArgsSafe es
-end
-
 theorem atom_of_ok {t : Text} (h : atomOK t = true) : G true t := by
   unfold atomOK at h
   simp only [Bool.and_eq_true, Bool.not_eq_true', List.all_eq_true] at h
@@ -122,6 +92,147 @@ theorem date_G (m : Int) : G true (dateSpec m) := by
   show G true ("DATE(".toList ++ natStr y ++ [','] ++ natStr mo ++ [','] ++ natStr d ++ [')'])
   rw [heq]; exact this
 
+theorem skipBody_spec : ∀ (r y : List Char), skipBody r = some y →
+    ∃ b, r = b ++ '\'' :: y ∧ ∀ c ∈ b, c ≠ '\''
+  | [], _, h => by simp [skipBody] at h
+  | c :: r, y, h => by
+    unfold skipBody at h
+    by_cases hc : c = '\''
+    · simp only [hc, if_true, Option.some.injEq] at h
+      exact ⟨[], by simp [hc, h], by simp⟩
+    · simp only [hc, if_false] at h
+      obtain ⟨b, hb, hne⟩ := skipBody_spec r y h
+      refine ⟨c :: b, by simp [hb], ?_⟩
+      intro x hx
+      rcases List.mem_cons.1 hx with rfl | hx
+      · exact hc
+      · exact hne x hx
+
+theorem contTail_spec {y z : List Char} (h : contTail y = some z) : y = ':' :: z ∧ ∃ r, z = '\'' :: r := by
+  unfold contTail at h
+  split at h
+  · injection h with h; subst h; exact ⟨rfl, _, rfl⟩
+  · cases h
+
+theorem skipChain_spec : ∀ (f : Nat) (s post : List Char), skipChain f s = some post →
+    ∃ q, SQChain q ∧ s = q ++ post
+  | 0, _, _, h => by simp [skipChain] at h
+  | f + 1, s, post, h => by
+    cases s with
+    | nil => simp [skipChain] at h
+    | cons c r =>
+      by_cases hc : c = '\''
+      · subst hc
+        simp only [skipChain] at h
+        cases hb : skipBody r with
+        | none => rw [hb] at h; cases h
+        | some y =>
+          rw [hb] at h
+          obtain ⟨b, hr, hne⟩ := skipBody_spec r y hb
+          simp only [] at h
+          cases hz : contTail y with
+          | none =>
+            rw [hz] at h
+            injection h with h
+            subst h
+            exact ⟨'\'' :: (b ++ ['\'']), SQChain.one b hne, by simp [hr]⟩
+          | some z =>
+            rw [hz] at h
+            obtain ⟨hy, _⟩ := contTail_spec hz
+            obtain ⟨q', hq', hzq⟩ := skipChain_spec f z post h
+            refine ⟨'\'' :: (b ++ '\'' :: ':' :: q'), SQChain.more b q' hne hq', ?_⟩
+            simp [hr, hy, hzq]
+      · have : skipChain (f + 1) (c :: r) = none := by
+          unfold skipChain
+          split
+          · rfl
+          · rename_i heq; injection heq with e _; exact absurd e hc
+          · rfl
+        rw [this] at h; cases h
+
+theorem postOKb_spec {post : List Char} (h : postOKb post = true) : PostOK post := by
+  unfold postOKb at h
+  split at h
+  · exact Or.inl rfl
+  · rename_i c r
+    simp only [Bool.and_eq_true, Bool.not_eq_true', List.all_eq_true] at h
+    exact Or.inr ⟨c, r, rfl, h.1.1, h.1.2, h.2⟩
+  · cases h
+
+theorem qref_G {t : Text} (h : qrefOK t = true) : G true t := by
+  unfold qrefOK at h
+  simp only [Bool.and_eq_true, Bool.or_eq_true, List.all_eq_true, List.isEmpty_iff, beq_iff_eq] at h
+  obtain ⟨⟨hp, hpre⟩, hch⟩ := h
+  cases hs : skipChain (t.dropWhile (fun c => c != '\'')).length (t.dropWhile (fun c => c != '\'')) with
+  | none => rw [hs] at hch; cases hch
+  | some post =>
+    rw [hs] at hch
+    obtain ⟨q, hq, hrem⟩ := skipChain_spec _ _ _ hs
+    have ht : t = t.takeWhile (fun c => c != '\'') ++ (q ++ post) := by
+      rw [← hrem]; exact (List.takeWhile_append_dropWhile).symm
+    rw [ht]
+    exact G.qatom _ q post hp hpre hq (postOKb_spec hch)
+
+theorem ref_G {t : Text} (h : refOK t = true) : G true t := by
+  unfold refOK at h
+  rcases Bool.or_eq_true_iff.1 h with h | h
+  · exact atom_of_ok h
+  · exact qref_G h
+
+/-! ### argument lists and array rows -/
+
+theorem args_append : ∀ {b : Bool} {a : List Char}, G b a → b = false → ∀ (sep : Char) (rest : List Char),
+    (sep = ',' ∨ sep = ';') → G false rest → G false (a ++ sep :: rest) := by
+  intro b a h
+  induction h with
+  | args_nil => intro _ sep rest hs hr; exact G.args_sep sep rest hs hr
+  | args_one e he _ => intro _ sep rest hs hr; exact G.args_cons e sep rest he hs hr
+  | args_sep s' rest' hs' _ ih =>
+    intro _ sep rest hs hr
+    exact G.args_sep s' _ hs' (ih rfl sep rest hs hr)
+  | args_cons e s' rest' he hs' _ _ ih =>
+    intro _ sep rest hs hr
+    have := G.args_cons e s' _ he hs' (ih rfl sep rest hs hr)
+    simpa [List.append_assoc] using this
+  | atom _ _ _ _ => intro h; cases h
+  | qatom _ _ _ _ _ _ _ => intro h; cases h
+  | str _ _ => intro h; cases h
+  | neg _ _ _ => intro h; cases h
+  | pct _ _ _ => intro h; cases h
+  | bin _ _ _ _ _ _ _ _ => intro h; cases h
+  | group _ _ _ _ _ => intro h; cases h
+  | arr _ _ _ => intro h; cases h
+
+theorem join_G (sep : Char) (hs : sep = ',' ∨ sep = ';') : ∀ xs : List Text, (∀ x ∈ xs, G true x) → G false (join [sep] xs)
+  | [], _ => G.args_nil
+  | [x], h => by simp only [join]; exact G.args_one _ (h x (by simp))
+  | x :: y :: r, h => by
+    simp only [join]
+    have := G.args_cons x sep _ (h x (by simp)) hs (join_G sep hs (y :: r) (fun z hz => h z (by simp [hz])))
+    simpa [List.append_assoc] using this
+
+theorem rows_G : ∀ rows : List (List Text), (∀ row ∈ rows, ∀ x ∈ row, G true x) →
+    G false (join [';'] (rows.map (join [','])))
+  | [], _ => G.args_nil
+  | [row], h => by
+    simp only [List.map, join]
+    exact join_G ',' (Or.inl rfl) row (h row (by simp))
+  | row :: r2 :: rs, h => by
+    simp only [List.map, join]
+    have h1 := join_G ',' (Or.inl rfl) row (h row (by simp))
+    have h2 := rows_G (r2 :: rs) (fun r hr => h r (by simp [hr]))
+    simp only [List.map] at h2
+    have := args_append h1 rfl ';' _ (Or.inr rfl) h2
+    simpa [List.append_assoc] using this
+
+theorem chunks_mem : ∀ (r c : Nat) (xs : List Text), ∀ row ∈ chunks r c xs, ∀ x ∈ row, x ∈ xs
+  | 0, _, _, row, h, _, _ => by simp [chunks] at h
+  | r + 1, c, xs, row, h, x, hx => by
+    simp only [chunks, List.mem_cons] at h
+    rcases h with rfl | h
+    · exact List.mem_of_mem_take hx
+    · exact List.mem_of_mem_drop (chunks_mem r c _ row h x hx)
+
 theorem argsSafe_cons (e : Expr) (es : List Expr) (h : ArgsSafe (e :: es) = true) :
     ((∃ _ : Unit, e = .empty) ∨ TokSafe e = true) ∧ ArgsSafe es = true := by
   cases e <;> simp_all [ArgsSafe]
@@ -136,7 +247,7 @@ theorem render_G : ∀ (e : Expr), TokSafe e = true → G true (render e)
     · exact atom_of_ok (by decide)
     · exact atom_of_ok (by decide)
   | .date m, _ => by simp only [render]; exact date_G m
-  | .ref t, h => by simp only [TokSafe] at h; simp only [render]; exact atom_of_ok h
+  | .ref t, h => by simp only [TokSafe] at h; simp only [render]; exact ref_G h
   | .empty, h => by simp [TokSafe] at h
   | .bin op l r, h => by
     simp only [TokSafe, Bool.and_eq_true] at h
@@ -164,7 +275,22 @@ theorem render_G : ∀ (e : Expr), TokSafe e = true → G true (render e)
       have := h.1; unfold nameOK at this; simpa [List.all_eq_true] using this
     have := G.group (funcName f) _ hn (renderList_G args h.2)
     simpa [List.append_assoc] using this
-  | .arr _ _ _, h => by simp [TokSafe] at h
+  | .arr c r es, h => by
+    simp only [TokSafe] at h
+    simp only [render]
+    have hcells := renderEach_G es h
+    have := G.arr _ (rows_G (chunks r c (renderList es))
+      (fun row hrow x hx => hcells x (chunks_mem r c _ row hrow x hx)))
+    simpa [List.append_assoc] using this
+theorem renderEach_G : ∀ (es : List Expr), CellsSafe es = true → ∀ x ∈ renderList es, G true x
+  | [], _ => by simp [renderList]
+  | e :: es, h => by
+    simp only [CellsSafe, Bool.and_eq_true] at h
+    intro x hx
+    simp only [renderList, List.mem_cons] at hx
+    rcases hx with rfl | hx
+    · exact render_G e h.1
+    · exact renderEach_G es h.2 x hx
 theorem renderList_G : ∀ (es : List Expr), ArgsSafe es = true → G false (join [','] (renderList es))
   | [], _ => by simp only [renderList, join]; exact G.args_nil
   | [e], h => by
